@@ -362,6 +362,8 @@ func classifyVerify(err error) string {
 		return "mismatch"
 	case strings.HasPrefix(s, "signature does not cover file"):
 		return "notcovered"
+	case strings.HasPrefix(s, "archive holds more than one member named"):
+		return "duplicate"
 	}
 	return "pgp"
 }
